@@ -46,6 +46,18 @@ func (d *dcase) void(reason string) {
 	d.incon("%s", reason)
 }
 
+// settle waits for a consistent quiescent snapshot; without one nothing may be judged
+func (d *dcase) settle(apps ...*App) bool {
+	if len(apps) == 0 {
+		apps = d.apps
+	}
+	if quiesce(apps...) {
+		return true
+	}
+	d.incon("watchdog: no quiescence")
+	return false
+}
+
 func (d *dcase) incon(format string, args ...any) {
 	if d.r.incon == "" {
 		d.r.incon = fmt.Sprintf(format, args...)
@@ -337,8 +349,7 @@ func runEarly(n, parkSlot int, victims []int, startKind string, specMode gen.App
 	if len(d.r.viols) > 0 && st != "loaded" {
 		// witness: can the application still be stopped at all?
 		err, ok := d.call("ApplicationStopWithTimeout", func() error { return node.ApplicationStopWithTimeout(a.Name, 300*time.Millisecond) })
-		if ok {
-			quiesce(a)
+		if ok && quiesce(a) {
 			d.detail["followup_stop"] = fmt.Sprintf("ApplicationStopWithTimeout(300ms) -> %v, state afterwards %s, alive %v", err, appState(a.Name), a.aliveSlots())
 		}
 		return
@@ -347,8 +358,7 @@ func runEarly(n, parkSlot int, victims []int, startKind string, specMode gen.App
 		// "so it can be started again"
 		a.attempt.Add(1)
 		err, ok := d.call("restart", func() error { return startBy("start", a.Name) })
-		if ok {
-			quiesce(a)
+		if ok && d.settle(a) {
 			if err != nil || appState(a.Name) != "running" || len(a.aliveSlots()) != n {
 				d.r.v(fam, "[restart-fails] restart after the stop: err=%v state=%s alive=%v: %s", err, appState(a.Name), a.aliveSlots(), ctx)
 			}
@@ -475,8 +485,7 @@ func runTwoDie(k, n int, mode gen.ApplicationMode, nv int, how string) {
 		if len(d.r.viols) == 0 {
 			a.attempt.Add(1)
 			err, ok := d.call("restart", func() error { return startBy("start", a.Name) })
-			if ok {
-				quiesce(a)
+			if ok && d.settle(a) {
 				if err != nil || appState(a.Name) != "running" || len(a.aliveSlots()) != n {
 					d.r.v("two-die-together-restart-fails", "restart: err=%v state=%s alive=%v: %s", err, appState(a.Name), a.aliveSlots(), ctx)
 				}
@@ -541,7 +550,9 @@ func runStaleTerminator(k int) {
 	if !contested {
 		gs.Release()
 		wg.Wait()
-		quiesce(a)
+		if !d.settle(a) {
+			return
+		}
 		if st := appState(a.Name); st != "loaded" || a.count("terminate") != 1 {
 			d.r.v("two-die-together-not-stopped", "state=%s callbacks=%v", st, a.CBs())
 		}
@@ -556,10 +567,15 @@ func runStaleTerminator(k int) {
 		wg.Wait()
 		return
 	}
-	quiesce(a)
+	// (the parked terminator's killer goroutine is a harness goroutine: the members can settle)
+	settled := quiesce(a)
 	st2, alive2 := appState(a.Name), len(a.aliveSlots())
 	gs.Release()
 	wg.Wait()
+	if !settled {
+		d.incon("watchdog: no quiescence after the restart")
+		return
+	}
 	if gs.TimedOut() {
 		d.void("gate: released by deadline")
 	}
@@ -953,7 +969,9 @@ func runDepInProgress(nd int) {
 	if g.TimedOut() {
 		d.void("gate: released by deadline")
 	}
-	quiesce(d.apps...)
+	if !d.settle() {
+		return
+	}
 	ctx := fmt.Sprintf("dependency D (%d members) is being started on behalf of A (starter parked after spawning D's first member); ApplicationStart(B), B depends on D, returned %v: B's Start callback ran %d times while D's Start callback had run %d times and %d of %d members of D existed; afterwards A's start returned %v; states D=%s A=%s B=%s", nd, errB, bStarts, depStarts, depMembers, nd, sr.err, appState(dep.Name), appState(a.Name), appState(b.Name))
 	d.detail["context"] = ctx
 	d.class = fmt.Sprintf("B-returned-%v/B-waited=%v", errB, !gotB)
@@ -983,6 +1001,40 @@ func runRestartLoop(k int) {
 	}
 	hk.Stress(id, map[string]float64{"app.start.spawned": 0.3, "app.term.swap": 0.5, "proc.unreg.deleted": 0.3, "proc.run.tosleep": 0.1, "proc.run.term.err": 0.3, "proc.kill.term": 0.3}, 200*time.Microsecond)
 	defer hk.StressOff()
+
+	// what the harness has asked for, per run (attempt number)
+	var downRequested atomic.Int32 // attempt for which a stop / the death of the members has been requested
+	// a terminator that arrives at the final state swap although no member of the current run
+	// has terminated and nothing has been requested for it can only belong to an earlier run
+	var staleMu sync.Mutex
+	var stale []string
+	cancel := hk.Observe("app.term.swap", hk.Eq(a.Name), func(string, any) {
+		att := a.attempt.Load()
+		if downRequested.Load() >= att {
+			return
+		}
+		st := appState(a.Name)
+		if st != "running" && st != "stopping" {
+			return
+		}
+		dead, seen := 0, 0
+		for _, m := range a.Members() {
+			if m.Attempt == att && m.I.PID != (gen.PID{}) {
+				seen++
+				if !alive(m.I.PID) {
+					dead++
+				}
+			}
+		}
+		if dead == 0 {
+			staleMu.Lock()
+			stale = append(stale, fmt.Sprintf("tick %d: a terminator arrived at the final state swap while run %d was %s with %d spawned members, none of them terminated, and no stop or member death had been requested for that run", hk.Now(), att, st, seen))
+			staleMu.Unlock()
+		}
+	})
+	defer cancel()
+	panics0 := len(node.Cap.PanicLines())
+
 	rounds := 4 + rng.Intn(5)
 	var trace []string
 	okStarts := 0
@@ -1004,6 +1056,7 @@ func runRestartLoop(k int) {
 			break
 		}
 		// bring it down without waiting for quiescence
+		downRequested.Store(a.attempt.Load())
 		way := rng.Intn(3)
 		switch way {
 		case 0:
@@ -1026,8 +1079,7 @@ func runRestartLoop(k int) {
 		stops++
 		if !hk.WaitUntil(10*time.Second, func() bool { return appState(a.Name) == "loaded" }) {
 			// stable witness or watchdog: decide at quiescence
-			quiesce(a)
-			if len(a.aliveSlots()) == 0 && appState(a.Name) != "loaded" {
+			if quiesce(a) && len(a.aliveSlots()) == 0 && appState(a.Name) != "loaded" {
 				d.r.v("restart-loop-app-never-stops", "round %d: no member is left but the state stays %s; trace %v; callbacks %v", r, appState(a.Name), trace, a.CBs())
 			} else {
 				d.incon("watchdog: application did not reach loaded; trace %v", trace)
@@ -1036,28 +1088,73 @@ func runRestartLoop(k int) {
 		}
 	}
 	hk.StressOff()
-	if !quiesce(a) {
-		d.incon("watchdog: no quiescence")
+	if !d.settle(a) {
 		return
 	}
+	cancel()
 	d.fired = true
 	st := appState(a.Name)
 	starts, terms := a.count("start"), a.count("terminate")
 	cur := a.cur()
 	curAlive := 0
-	for _, m := range cur {
+	var curDeaths []string
+	for s, m := range cur {
 		if alive(m.I.PID) {
 			curAlive++
+			continue
+		}
+		for _, e := range m.I.Events() {
+			if e.CB == "terminate" {
+				curDeaths = append(curDeaths, fmt.Sprintf("slot%d: %v", s, e.Err))
+			}
 		}
 	}
-	ctx := fmt.Sprintf("%d members, %d rounds of start / stop / immediate restart (%v): successful starts %d, stops %d; at quiescence state=%s, members of the last run alive %d/%d, all alive %v, Start callbacks %d, Terminate callbacks %d", n, rounds, trace, okStarts, stops, st, curAlive, n, a.aliveSlots(), starts, terms)
-	d.detail["context"] = ctx
-	d.class = fmt.Sprintf("n%d", n)
-	if st != "running" || curAlive != n || len(a.aliveSlots()) != n {
-		d.r.v("restart-loop-final-state", "%s", ctx)
+	var doubleClose, nilReason bool
+	pl := node.Cap.PanicLines()
+	if len(pl) > panics0 {
+		for _, l := range pl[panics0:] {
+			if strings.Contains(l, "close of closed channel") {
+				doubleClose = true
+			}
+		}
 	}
-	if starts != okStarts || terms != stops {
-		d.r.v("restart-loop-callback-count", "%s", ctx)
+	for _, c := range a.CBs() {
+		if c.Kind == "terminate" && c.reason == nil {
+			nilReason = true
+		}
+	}
+	staleMu.Lock()
+	staleW := append([]string(nil), stale...)
+	staleMu.Unlock()
+	ctx := fmt.Sprintf("%d members, %d rounds of start / stop / immediate restart (%v): successful starts %d, stops %d; at quiescence state=%s, members of the last run alive %d/%d (terminated ones: %v), all alive %v, Start callbacks %d, Terminate callbacks %d; callbacks %v", n, rounds, trace, okStarts, stops, st, curAlive, n, curDeaths, a.aliveSlots(), starts, terms, a.CBs())
+	d.detail["context"] = ctx
+	d.detail["stale_terminator_arrivals"] = staleW
+	d.class = fmt.Sprintf("n%d", n)
+	bad := st != "running" || curAlive != n || len(a.aliveSlots()) != n || starts != okStarts || terms != stops
+	if !bad && !nilReason {
+		return
+	}
+	// The last run was never touched by the harness. Which mechanism brought it down / lost a callback?
+	shutdownFromNowhere := false
+	for _, x := range curDeaths {
+		if strings.Contains(x, gen.TerminateReasonShutdown.Error()) {
+			shutdownFromNowhere = true
+		}
+	}
+	switch {
+	case len(staleW) > 0:
+		d.r.v("stale-terminator-stops-restarted-app", "a terminator of an earlier run reached the final state swap of a later run and stopped it (state, Terminate callback, stop channel) although its members run: %v; %s", staleW, ctx)
+	case shutdownFromNowhere && terms > stops:
+		d.r.v("stale-terminator-stops-restarted-app", "members of the last run, for which nothing was requested, received a shutdown exit signal (only application.terminate of a permanent/transient run sends these without a stop request, here on behalf of a member of an earlier run): %s", ctx)
+	case doubleClose || nilReason:
+		d.r.v("terminate-tail-overlaps-restart", "the terminator that finishes run N publishes state loaded before it has closed the stop channel and read the reason; the restart replaced both meanwhile (framework panic 'close of closed channel' logged: %v, Terminate(nil) seen: %v): %s", doubleClose, nilReason, ctx)
+	default:
+		if st != "running" || curAlive != n || len(a.aliveSlots()) != n {
+			d.r.v("restart-loop-final-state", "%s", ctx)
+		}
+		if starts != okStarts || terms != stops {
+			d.r.v("restart-loop-callback-count", "%s", ctx)
+		}
 	}
 }
 
@@ -1104,6 +1201,9 @@ func runAllDirected() {
 		runSlowLogTerminator(how, false)
 		runSlowLogTerminator(how, true)
 	}
+	for _, cause := range []string{"stop", "custom", "kill", "panic"} {
+		runStopTailRestart(cause)
+	}
 	for _, mode := range []gen.ApplicationMode{temp, trans, perm} {
 		for _, sk := range []string{"stop", "timeout", "force"} {
 			for _, how := range []string{"normal", "custom", "kill", "panic"} {
@@ -1141,6 +1241,7 @@ func runAllDirected() {
 type logGate struct {
 	mu      sync.Mutex
 	app     gen.Atom
+	prefix  string
 	armed   bool
 	arrived chan struct{}
 	release chan struct{}
@@ -1150,11 +1251,11 @@ type logGate struct {
 func (l *logGate) Terminate() {}
 
 func (l *logGate) Log(m gen.MessageLog) {
-	if !strings.HasPrefix(m.Format, "application %s (%s) will be stopped") || len(m.Args) == 0 {
+	if len(m.Args) == 0 {
 		return
 	}
 	l.mu.Lock()
-	if !l.armed || m.Args[0] != any(l.app) {
+	if !l.armed || !strings.HasPrefix(m.Format, l.prefix) || m.Args[0] != any(l.app) {
 		l.mu.Unlock()
 		return
 	}
@@ -1169,9 +1270,14 @@ func (l *logGate) Log(m gen.MessageLog) {
 	}
 }
 
-func (l *logGate) arm(app gen.Atom) {
+const (
+	logWillBeStopped = "application %s (%s) will be stopped"
+	logStopped       = "application %s (%s) stopped with reason"
+)
+
+func (l *logGate) arm(app gen.Atom, prefix string) {
 	l.mu.Lock()
-	l.app, l.armed = app, true
+	l.app, l.armed, l.prefix = app, true, prefix
 	l.arrived, l.release = make(chan struct{}), make(chan struct{})
 	l.timeout.Store(false)
 	l.mu.Unlock()
@@ -1202,7 +1308,7 @@ func runSlowLogTerminator(how0 string, restart bool) {
 	}
 	node.Log().SetLevel(gen.LogLevelInfo)
 	defer node.Log().SetLevel(gen.LogLevelError)
-	lgate.arm(a.Name)
+	lgate.arm(a.Name, logWillBeStopped)
 	cur := a.cur()
 	var wg sync.WaitGroup
 	wg.Add(1)
@@ -1288,5 +1394,105 @@ func runSlowLogTerminator(how0 string, restart bool) {
 	}
 	if st3 != "running" || t3 != 1 || len(a.aliveSlots()) != 2 {
 		d.r.v("stale-terminator-stops-restarted-app", "a terminator of the previous run, delayed before its final check, brought down the restarted application although none of its members failed: %s", ctx)
+	}
+}
+
+// runStopTailRestart: the terminator that completes the stop of run 1 is delayed (slow logger at
+// its "stopped with reason" line, i.e. after it has published state loaded and released the
+// stop waiters but before it calls the Terminate callback); the application is started again;
+// the terminator continues.
+func runStopTailRestart(cause string) {
+	id := fmt.Sprintf("D/stop-tail-restart/%s", cause)
+	if !want(id) {
+		return
+	}
+	d := newD(id, "terminate-tail-vs-restart")
+	defer d.finish()
+	var lerr error
+	lgateOnce.Do(func() { lerr = node.LoggerAdd("c17gate", lgate, gen.LogLevelInfo) })
+	if lerr != nil {
+		d.incon("LoggerAdd: %v", lerr)
+		return
+	}
+	mode := gen.ApplicationModeTemporary
+	if cause != "stop" {
+		mode = gen.ApplicationModePermanent
+	}
+	a := d.app(1, mode)
+	if !d.loadStart(a, "start") || !d.settle(a) {
+		return
+	}
+	node.Log().SetLevel(gen.LogLevelInfo)
+	defer node.Log().SetLevel(gen.LogLevelError)
+	lgate.arm(a.Name, logStopped)
+	release := lgate.release
+	var relOnce sync.Once
+	rel := func() { relOnce.Do(func() { close(release) }) }
+	defer rel()
+	want := gen.TerminateReasonShutdown
+	var wg sync.WaitGroup
+	wg.Add(1)
+	go func() {
+		defer wg.Done()
+		if cause == "stop" {
+			d.call("ApplicationStop", func() error { return node.ApplicationStop(a.Name) })
+		} else {
+			killMember(a.cur()[0].I.PID, cause)
+		}
+	}()
+	if cause != "stop" {
+		want = reasonOfHow(cause)
+	}
+	select {
+	case <-lgate.arrived:
+	case <-time.After(5 * time.Second):
+		rel()
+		wg.Wait()
+		d.incon("gate: the terminator never logged")
+		return
+	}
+	d.fired = true
+	st1 := appState(a.Name)
+	if st1 != "loaded" {
+		// the implementation does not publish the state before the callback: nothing to race with
+		rel()
+		wg.Wait()
+		d.fired = false
+		d.settle(a)
+		return
+	}
+	a.attempt.Add(1)
+	errR, ok := d.call("restart", func() error { return startBy("start", a.Name) })
+	if !ok {
+		return
+	}
+	rel()
+	wg.Wait()
+	if lgate.timeout.Load() {
+		d.void("gate: released by deadline")
+		return
+	}
+	if !d.settle(a) {
+		return
+	}
+	var terms []cbEv
+	for _, c := range a.CBs() {
+		if c.Kind == "terminate" {
+			terms = append(terms, c)
+		}
+	}
+	st := appState(a.Name)
+	ctx := fmt.Sprintf("run 1 (%s, 1 member) ends by %q; its terminator has published state %s and is delayed before the Terminate callback; restart -> %v; the terminator continues; at quiescence state=%s alive=%v callbacks=%v", mode, cause, st1, errR, st, a.aliveSlots(), a.CBs())
+	d.detail["context"] = ctx
+	d.class = fmt.Sprintf("terms=%v", terms)
+	if errR != nil {
+		d.r.v("restart-after-stop-fails", "state was loaded, yet the start failed: %s", ctx)
+		return
+	}
+	if len(terms) != 1 || terms[0].reason != want {
+		d.r.v("terminate-tail-overlaps-restart", "the Terminate callback of run 1 must run once with %v; the terminator read the reason after the restart had reset it: %s", want, ctx)
+	}
+	if st != "running" || len(a.aliveSlots()) != 1 {
+		d.r.v("terminate-tail-overlaps-restart", "the restarted application must run: %s", ctx)
 	}
 }
